@@ -473,7 +473,7 @@ class SortChecker:
     non-pure parameters) for hex_<name> calls; `inputs`: local name -> sort for harness-provided
     locals; `param_sorts`: sorts of this body's own borrowed pure parameters."""
 
-    def __init__(self, body, opwidth=None, subs=None, inputs=None, param_sorts=None):
+    def __init__(self, body, opwidth=None, subs=None, inputs=None, param_sorts=None, declared=None):
         self.b = body
         self.opwidth = opwidth or {}
         self.subs = subs or {}
@@ -488,6 +488,7 @@ class SortChecker:
             if m:
                 self.declared_types[n] = bv(int(m.group(2)))
         self.param_sorts = param_sorts or {}
+        self.declared = declared or {}
         self.memo = {}
         self.pending = False
         self.letvars = []
@@ -765,6 +766,8 @@ class SortChecker:
                 return
             if s[0] not in ("bv", "bool", "float"):
                 raise SortError("SETL of a non-value")
+            if name in self.declared and self.declared[name] != s:
+                raise SortError("local %s is declared %s in the source but set to %s" % (name, fmt_sort(self.declared[name]), fmt_sort(s)))
             if name in self.locals:
                 if self.locals[name] != s:
                     raise SortError("local %s changes sort: %s then %s" % (name, fmt_sort(self.locals[name]), fmt_sort(s)))
